@@ -858,7 +858,83 @@ def _diff_fails(case):
     return compare_with_model(case, impl, mline) is not None
 
 
+def stopped_take_cases(ctx):
+    """A take that is ENDED BY THE USER — timeline.stop() (or device.all_notes_off()) in the middle of notes and rests, then
+    write() — is a recording like any other: every note that was sounding at the stop gets its note-off at the stop, notes keep
+    their onsets and the lengths they had sounded, and the file is as long as the take (trailing silence preserved).  The file is
+    read back with mido; implementation-only oracle."""
+    import mido
+    common.ensure_repo_on_path()
+    import isobar as iso
+    from isobar.io.midifile.output import MidiFileOutputDevice
+    r = ctx.rng
+    tmpdir = tempfile.mkdtemp(prefix="c16-stop-")
+    try:
+        for i in range(ctx.scale(60, 2500)):
+            path = os.path.join(tmpdir, "s%d.mid" % (i % 4))
+            dev = MidiFileOutputDevice(path)
+            tpb = dev.ticks_per_beat
+            tl = iso.Timeline(120, output_device=dev, clock_source=iso.DummyClock(ticks_per_beat=tpb))
+            voices = []
+            for v in range(r.randint(1, 3)):
+                notes = [r.randint(30 + 20 * v, 45 + 20 * v) for _ in range(r.randint(1, 4))]
+                dur = r.choice([1, 2, 4])
+                gate = r.choice([0.5, 1.0, 0.75])
+                delay = r.choice([0, 0, 1])
+                voices.append((notes, dur, gate, delay))
+                tl.schedule({"note": iso.PSequence(list(notes), 1), "duration": dur, "gate": gate, "channel": v}, delay=delay)
+            stop_tick = r.randint(1, 6 * tpb)
+            how = r.choice(["timeline.stop", "timeline.stop", "all_notes_off"])
+            for _ in range(stop_tick):
+                try:
+                    tl.tick()
+                except StopIteration:
+                    break
+            if how == "timeline.stop":
+                tl.stop()
+            else:
+                dev.all_notes_off()
+            rest = r.choice([0, 0, tpb // 2, tpb])
+            for _ in range(rest):
+                dev.tick()
+            dev.write()
+            # what was recorded, by hand
+            exp = []
+            for v, (notes, dur, gate, delay) in enumerate(voices):
+                for j, n in enumerate(notes):
+                    on = (delay + j * dur) * tpb
+                    off = on + int(round(dur * gate * tpb))
+                    if on < stop_tick:
+                        exp.append((v, n, on, min(off, stop_tick) - on))
+            total_exp = stop_tick + rest
+            got, sounding, now = [], {}, 0
+            for msg in mido.MidiFile(path).tracks[0]:
+                now += msg.time
+                if msg.type == "note_on" and msg.velocity > 0:
+                    sounding.setdefault((msg.channel, msg.note), []).append(now)
+                elif msg.type in ("note_off", "note_on"):
+                    st = sounding.get((msg.channel, msg.note))
+                    if st:
+                        on = st.pop(0)
+                        got.append((msg.channel, msg.note, on, now - on))
+            hanging = sorted(k for k, st in sounding.items() if st)
+            total = now
+            ctx.case(("stopped-take", repr(voices), stop_tick, how, rest), nontrivial=True, validated=False,
+                     sample={"stopped_take": {"voices": repr(voices)[:200], "stopped_at_tick": stop_tick, "how": how, "silence_after": rest}} if i < 3 else None)
+            ctx.count("stopped-take:" + how)
+            if sorted(got) != sorted(exp) or hanging or total != total_exp:
+                ctx.violation("C16:roundtrip:stopped-take",
+                              "take of %s ended by %s at tick %d (+%d ticks of silence): the file holds (channel, note, onset, length) %s%s, length %d; "
+                              "recorded were %s, length %d" % (voices, how, stop_tick, rest, sorted(got)[:8], " and hanging notes %s" % hanging if hanging else "",
+                                                               total, sorted(exp)[:8], total_exp),
+                              {"suite": "c16-stopped-take", "voices": repr(voices), "stopped_at_tick": stop_tick, "how": how, "silence_after": rest,
+                               "first_failing_clause": "the same onset times and sounding lengths, with trailing silence preserved in the file's length"})
+    finally:
+        shutil.rmtree(tmpdir, ignore_errors=True)
+
+
 def run(ctx):
+    stopped_take_cases(ctx)
     n_score = ctx.scale(1200, 40000)
     n_foreign = ctx.scale(2000, 60000)
     state = {"shrunk": set(), "attempts": 0}
